@@ -16,12 +16,12 @@ instance (b : Nat) : Decidable (SafeByte b) := by unfold SafeByte; infer_instanc
 def ReqOk : Req → Prop
   | .version ver => ver < 4294967296
   | .options uid _ _ _ down up frag =>
-    uid < SA.Gen.maxUserId ∧ (∀ d, down = some d → d ∈ registryCodes) ∧ (∀ u, up = some u → u ∈ registryCodes)
+    uid < SA.Gen.C09.maxUserId ∧ (∀ d, down = some d → d ∈ registryCodes) ∧ (∀ u, up = some u → u ∈ registryCodes)
       ∧ (∀ f, frag = some f → f < 4294967295)
-  | .packet uid ack pkt => uid < SA.Gen.maxUserId ∧ ack < 65536 ∧ (∀ p, pkt = some p → p.1 < 65536 ∧ SA.Bytes p.2)
+  | .packet uid ack pkt => uid < SA.Gen.C09.maxUserId ∧ ack < 65536 ∧ (∀ p, pkt = some p → p.1 < 65536 ∧ SA.Bytes p.2)
   | .downEnc code => code ∈ registryCodes
-  | .upEnc uid pattern => uid < SA.Gen.maxUserId ∧ ∀ b ∈ pattern, SafeByte b
-  | .fragSize uid frag => uid < SA.Gen.maxUserId ∧ frag < 4294967296
+  | .upEnc uid pattern => uid < SA.Gen.C09.maxUserId ∧ ∀ b ∈ pattern, SafeByte b
+  | .fragSize uid frag => uid < SA.Gen.C09.maxUserId ∧ frag < 4294967296
 
 /-- the three cache-busting characters: any three name-safe bytes (the code draws them from a–z0–9) -/
 def CacheOk (cache : List Nat) : Prop := cache.length = 3 ∧ ∀ b ∈ cache, SafeByte b
@@ -75,11 +75,11 @@ theorem base36Digit_safe (d : Nat) (h : d < 36) : SafeByte (base36Digit d) := by
   unfold base36Digit SafeByte
   by_cases h10 : d < 10 <;> simp [h10] <;> omega
 
-theorem maxUserId_eq : SA.Gen.maxUserId = 36 * 36 := by decide
+theorem maxUserId_eq : SA.Gen.C09.maxUserId = 36 * 36 := by decide
 
 theorem encodeUserId_safe (uid : Nat) : ∀ b ∈ encodeUserId uid, SafeByte b := by
   have hm := maxUserId_eq
-  have hlt : uid % SA.Gen.maxUserId < 36 * 36 := by rw [hm]; exact Nat.mod_lt _ (by decide)
+  have hlt : uid % SA.Gen.C09.maxUserId < 36 * 36 := by rw [hm]; exact Nat.mod_lt _ (by decide)
   intro b hb
   simp [encodeUserId] at hb
   rcases hb with rfl | rfl
@@ -87,10 +87,10 @@ theorem encodeUserId_safe (uid : Nat) : ∀ b ∈ encodeUserId uid, SafeByte b :
   · exact base36Digit_safe _ (Nat.mod_lt _ (by decide))
 
 theorem decodeHeader_uid (code c1 c2 c3 uid : Nat) (tail : List Nat)
-    (hn : needsUserId code = true) (hu : uid < SA.Gen.maxUserId) :
+    (hn : needsUserId code = true) (hu : uid < SA.Gen.C09.maxUserId) :
     decodeHeader code (code :: c1 :: c2 :: c3 :: (encodeUserId uid ++ tail)) = .ok (tail, uid) := by
   have hm := maxUserId_eq
-  have hmod : uid % SA.Gen.maxUserId = uid := Nat.mod_eq_of_lt hu
+  have hmod : uid % SA.Gen.C09.maxUserId = uid := Nat.mod_eq_of_lt hu
   unfold decodeHeader
   simp only [List.length_cons, hn, if_true, List.drop_succ_cons, List.drop_zero, encodeUserId, hmod,
     List.cons_append, List.nil_append]
@@ -175,7 +175,7 @@ theorem decodeReq_encodeReq (b32 up : Codec) (hb : b32.Good) (hu : up.Good)
   cases r with
   | version ver =>
     have hn : needsUserId 118 = false := by decide
-    have hf : SA.Gen.commandTable.find? (fun e => (118 == e.1 || lower 118 == e.1)) = some (118, false, true, true) := by decide
+    have hf : SA.Gen.C09.commandTable.find? (fun e => (118 == e.1 || lower 118 == e.1)) = some (118, false, true, true) := by decide
     simp only [encodeReq, encodeHeader, hn, List.cons_append, List.nil_append, List.append_nil, Bool.false_eq_true, if_false]
     have hbody := hb.roundtrip _ (bytes_le32 ver)
     simp only [decodeReq, hf, if_true, decodeBody, decodeHeader_nouid 118 c1 c2 c3 _ hn, hbody]
@@ -183,7 +183,7 @@ theorem decodeReq_encodeReq (b32 up : Codec) (hb : b32.Good) (hu : up.Good)
   | options uid l m c down upc frag =>
     obtain ⟨huid, hd, hup, hfr⟩ := hr
     have hn : needsUserId 111 = true := by decide
-    have hf : SA.Gen.commandTable.find? (fun e => (111 == e.1 || lower 111 == e.1)) = some (111, true, true, true) := by decide
+    have hf : SA.Gen.C09.commandTable.find? (fun e => (111 == e.1 || lower 111 == e.1)) = some (111, true, true, true) := by decide
     simp only [encodeReq, encodeHeader, hn, List.cons_append, List.nil_append, if_true]
     have hcode : ∀ (d : Option Nat), (∀ x, d = some x → x ∈ registryCodes) → d.getD 32 < 256 := by
       intro d h
@@ -212,7 +212,7 @@ theorem decodeReq_encodeReq (b32 up : Codec) (hb : b32.Good) (hu : up.Good)
   | packet uid ack pkt =>
     obtain ⟨huid, hack, hseq⟩ := hr
     have hn : needsUserId 99 = true := by decide
-    have hf : SA.Gen.commandTable.find? (fun e => (99 == e.1 || lower 99 == e.1)) = some (99, true, true, true) := by decide
+    have hf : SA.Gen.C09.commandTable.find? (fun e => (99 == e.1 || lower 99 == e.1)) = some (99, true, true, true) := by decide
     cases pkt with
     | none =>
       simp only [encodeReq, encodeHeader, hn, List.cons_append, List.nil_append, if_true]
@@ -233,21 +233,21 @@ theorem decodeReq_encodeReq (b32 up : Codec) (hb : b32.Good) (hu : up.Good)
   | downEnc code =>
     have hcode := registry_facts code hr
     have hn : needsUserId 121 = false := by decide
-    have hf : SA.Gen.commandTable.find? (fun e => (121 == e.1 || lower 121 == e.1)) = some (121, false, true, true) := by decide
+    have hf : SA.Gen.C09.commandTable.find? (fun e => (121 == e.1 || lower 121 == e.1)) = some (121, false, true, true) := by decide
     simp only [encodeReq, encodeHeader, hn, List.cons_append, List.nil_append, List.append_nil, Bool.false_eq_true, if_false]
     simp only [decodeReq, hf, if_true, decodeBody, decodeHeader_nouid 121 c1 c2 c3 _ hn]
     simp [hcode.1]
   | upEnc uid pattern =>
     obtain ⟨huid, _⟩ := hr
     have hn : needsUserId 122 = true := by decide
-    have hf : SA.Gen.commandTable.find? (fun e => (122 == e.1 || lower 122 == e.1)) = some (122, true, true, true) := by decide
+    have hf : SA.Gen.C09.commandTable.find? (fun e => (122 == e.1 || lower 122 == e.1)) = some (122, true, true, true) := by decide
     simp only [encodeReq, encodeHeader, hn, List.cons_append, List.nil_append, if_true]
     simp only [decodeReq, hf, if_true, decodeBody, decodeHeader_uid 122 c1 c2 c3 uid _ hn huid]
     simp
   | fragSize uid frag =>
     obtain ⟨huid, hfr⟩ := hr
     have hn : needsUserId 114 = true := by decide
-    have hf : SA.Gen.commandTable.find? (fun e => (114 == e.1 || lower 114 == e.1)) = some (114, true, true, true) := by decide
+    have hf : SA.Gen.C09.commandTable.find? (fun e => (114 == e.1 || lower 114 == e.1)) = some (114, true, true, true) := by decide
     simp only [encodeReq, encodeHeader, hn, List.cons_append, List.nil_append, if_true]
     have hbody := hb.roundtrip _ (bytes_le32 frag)
     simp only [decodeReq, hf, if_true, decodeBody, decodeHeader_uid 114 c1 c2 c3 uid _ hn huid, hbody]
